@@ -74,6 +74,7 @@ pub struct Stats {
     pub will_forwards: u64,
     pub wills_suppressed: u64,
     pub shared_forwards: u64,
+    pub witness_forwards: u64,
 }
 
 pub struct Interp<'a> {
@@ -444,6 +445,10 @@ impl<'a> Interp<'a> {
                 }
                 Ok(())
             }
+            Op::Raw { c, .. } | Op::Zombie { c, .. } if self.strict(*c) && self.flags.witnesses.is_some() => {
+                self.stats.skipped += 1;
+                Ok(())
+            }
             Op::Raw { c, pkt, notify } => {
                 let Some(s) = self.live_serial(*c) else {
                     self.stats.skipped += 1;
@@ -599,6 +604,7 @@ impl<'a> Interp<'a> {
                 qos: w.qos,
                 retain: w.retain,
                 serial,
+                maybe: false,
             }
         });
         if self.live_serial(c).is_some() {
@@ -857,6 +863,16 @@ impl<'a> Interp<'a> {
             Ev::DisconnectOf(serial) => {
                 if self.model.conns[serial].live {
                     self.close_model(serial, CloseWhy::LinkDrop);
+                } else if let Some(id) = self.sim.conns[serial].router_id {
+                    // a late signal of a finished connection. By the property it acts on nobody;
+                    // the router keys connections by recycled slab ids (known finding R5): for a
+                    // victim that is not asserted on the model follows the router
+                    if let Some(victim) = self.resolve_id(id) {
+                        let slot = self.model.conns[victim].slot;
+                        if !self.strict(slot) || self.model.conns[victim].tainted {
+                            self.close_model(victim, CloseWhy::Violation("recycled_id_signal"));
+                        }
+                    }
                 }
             }
             Ev::DisconnectId(id) => {
@@ -1163,6 +1179,10 @@ pub fn run_history(h: &Hist, flags: &Flags, obs: &mut Obs) -> Result<Stats, Fail
     it.stats.qos2_in_completed = it.views.iter().map(|v| v.pubcomp_received).sum();
     it.stats.acks_received = it.views.iter().map(|v| v.acks_received).sum();
     it.stats.will_forwards = it.views.iter().map(|v| v.will_forwards).sum();
+    it.stats.witness_forwards = (0..it.views.len())
+        .filter(|s| it.strict(it.sim.conns[*s].slot))
+        .map(|s| it.views[s].forwards_seen)
+        .sum();
     it.stats.shared_forwards = it.model.groups.iter().map(|g| g.delivered.len() as u64).sum();
     r.map(|_| it.stats.clone())
 }
